@@ -97,6 +97,14 @@ class SWorld:
             _DBS[self.path] = self.db
             self.url = "sqlite:///" + self.path
             symdb.CLOCK.now = 1_700_000_000_000
+            # one ConnectionManager per world, created outside the tracer (under tracing the
+            # singleton metaclass hands out distinct instances) and returned by every lookup
+            mgr = object.__new__(ConnectionManager)
+            ConnectionManager.__init__(mgr)
+            self.manager = mgr
+            for name, mod in list(sys.modules.items()):
+                if mod is not None and name.startswith("stabilize") and "get_connection_manager" in mod.__dict__:
+                    mod.__dict__["get_connection_manager"] = lambda _m=mgr: _m
         from datetime import timedelta
 
         from stabilize import SqliteQueue, SqliteWorkflowStore
